@@ -3802,8 +3802,34 @@ where
                 message: "Bistellar flips require a PL-manifold (vertex-link validation)",
             });
         }
-        let (tds, kernel) = (&mut self.tri.tds, &self.tri.kernel);
-        repair_delaunay_with_flips_k2_k3(tds, kernel, None, topology)
+        let snapshot = self.tri.tds.clone();
+        let stats = {
+            let (tds, kernel) = (&mut self.tri.tds, &self.tri.kernel);
+            repair_delaunay_with_flips_k2_k3(tds, kernel, None, topology)?
+        };
+        if let Err(err) = self.restore_orientation_after_repair() {
+            self.tri.tds = snapshot;
+            return Err(err);
+        }
+        Ok(stats)
+    }
+
+    /// Flip-based repair mutates cell orderings: restore the canonical positive geometric
+    /// orientation (as the insertion path does after its local repair) and re-check it before
+    /// the repaired triangulation is exposed.
+    fn restore_orientation_after_repair(&mut self) -> Result<(), DelaunayRepairError> {
+        self.tri
+            .normalize_and_promote_positive_orientation()
+            .map_err(|err| DelaunayRepairError::PostconditionFailed {
+                message: format!(
+                    "geometric orientation normalization failed after Delaunay repair: {err}"
+                ),
+            })?;
+        self.tri
+            .validate_geometric_cell_orientation()
+            .map_err(|err| DelaunayRepairError::PostconditionFailed {
+                message: format!("geometric orientation invalid after Delaunay repair: {err}"),
+            })
     }
 
     fn repair_delaunay_with_flips_robust(
@@ -3962,11 +3988,15 @@ where
                 DelaunayRepairError::NonConvergent { .. }
                 | DelaunayRepairError::PostconditionFailed { .. },
             ) => {
+                let snapshot = self.tri.tds.clone();
                 if let Ok(stats) = self.repair_delaunay_with_flips_robust(None) {
-                    return Ok(DelaunayRepairOutcome {
-                        stats,
-                        heuristic: None,
-                    });
+                    if self.restore_orientation_after_repair().is_ok() {
+                        return Ok(DelaunayRepairOutcome {
+                            stats,
+                            heuristic: None,
+                        });
+                    }
+                    self.tri.tds = snapshot;
                 }
                 let base_seed = self.heuristic_rebuild_base_seed();
                 let seeds = config.resolve_seeds(base_seed);
@@ -4132,6 +4162,7 @@ where
                 let topology = candidate.tri.topology_guarantee();
                 let (tds, kernel) = (&mut candidate.tri.tds, &candidate.tri.kernel);
                 let stats = repair_delaunay_with_flips_k2_k3(tds, kernel, None, topology)?;
+                candidate.restore_orientation_after_repair()?;
 
                 Ok::<_, DelaunayRepairError>((candidate, stats))
             })();
@@ -5182,7 +5213,8 @@ where
             let repair_result = {
                 let (tds, kernel) = (&mut self.tri.tds, &self.tri.kernel);
                 repair_delaunay_with_flips_k2_k3(tds, kernel, seed_ref, topology)
-            };
+            }
+            .and_then(|_| self.restore_orientation_after_repair());
             if let Err(e) = repair_result {
                 if let Some(tds) = snapshot {
                     self.tri.tds = tds;
